@@ -53,12 +53,17 @@ SEM_RULE = ("Family R, where listed, is a set of seeded random pattern trees (vl
 
 @check("C01")
 def c01(tier, replay):
-    return sem_check("C01", tier, replay, ["--no-ascii"], kinds_sem=("first", "compile", "emit"), want=("sem", "compile"),
+    return sem_check("C01", tier, replay, ["--no-ascii"], kinds_sem=("first", "compile", "emit", "irparse", "irwf"), want=("sem", "compile", "ir"),
                      rule=SEM_RULE + " In addition the dumped no_opt program of every pattern must equal, instruction by instruction at the "
                      "level of its control-flow skeleton (jump targets, loop bounds / ids / exits, group numbers, per-iteration capture resets, "
                      "look-around extents and continuations, flags of anchors and boundaries; single-character matchers collapsed), the "
                      "program that Compile.tla - the parser lowering and emitter as a TLA+ function - produces from the pattern tree "
-                     "(JudgeCompile.tla).",
+                     "(JudgeCompile.tla). The tree (IR) the real parser produced for every pattern (hook verif::ir_trace_json) must mean what the "
+                     "pattern means: IRSem.tla evaluates every anchored attempt of the tree on the family's haystacks (quick: the first 20 per "
+                     "pattern) and JudgeIR.tla compares with ESSem.tla (kind irparse), and the tree must be well formed (irwf: group ids, "
+                     "enclosed-group ranges of loops and look-arounds, one-character loop bodies, backreference targets). The exact reproductions "
+                     "of the optimizer run (OptPasses.tla), the start predicates (StartPred.tla) and both programs (Emit.tla) from the recorded "
+                     "trees are diagnostics counted in the coverage.",
                      assumptions=["ESSem.tla is a faithful transcription of ECMA-262 22.2.2 on code point input",
                                   "case relations of the model alphabet (spec/Alphabet.tla) are transcribed from the UCD by hand"])
 
@@ -86,8 +91,16 @@ def c02(tier, replay):
 
 @check("C03")
 def c03(tier, replay):
-    return sem_check("C03", tier, replay, [], kinds_sem=("compile",), pairs=SC.PAIRS["C03"], rule=SEM_RULE +
-                     " Violations: any (haystack, start) at which the no_opt program's match sequence differs from the optimized one's.")
+    return sem_check("C03", tier, replay, [], kinds_sem=("compile", "irpass", "irwf"), pairs=SC.PAIRS["C03"], want=("sem", "ir", "optmc"),
+                     rule=SEM_RULE +
+                     " Violations: any (haystack, start) at which the no_opt program's match sequence differs from the optimized one's; "
+                     "or, on the trees recorded after parsing and after every optimizer pass that changed the tree (hook verif::ir_trace_json), "
+                     "an anchored attempt on which the last tree does not mean what the parsed tree means (IRSem.tla; the first stage that "
+                     "differs from its predecessor names the pass), or a stage that is not well formed. Optimizer.tla - the passes as rewrite "
+                     "rules, optimize as a state machine - is model-checked by TLC from a sample of the recorded parsed trees (every state keeps "
+                     "the meaning, is well formed, the run ends, the last tree is the recorded one), once as the code runs (one round) and once "
+                     "as intended (rounds repeat); the recorded run of every pattern is compared with the specification's stage by stage "
+                     "(optimizer_trace_differences, a diagnostic).")
 
 
 def iter_model(tier):
